@@ -53,7 +53,11 @@ func genRxPrinted(r *Rng) string {
 	return "a"
 }
 
-func callPass(f func() string) (out string) {
+// passHangs: how often a pass did not return; a pass that hung twice is not called again (a
+// hung call keeps spinning in its goroutine)
+var passHangs = map[string]int{}
+
+func callPassOnce(f func() string) (out string) {
 	defer func() {
 		if p := recover(); p != nil {
 			out = "CRASH"
@@ -62,12 +66,34 @@ func callPass(f func() string) (out string) {
 	return "OK\t" + hx(f())
 }
 
+// callPass: "" = not called (the pass hung twice before)
+func callPass(name string, f func() string) string {
+	if passHangs[name] >= 2 {
+		return ""
+	}
+	ch := make(chan string, 1)
+	go func() { ch <- callPassOnce(f) }()
+	select {
+	case out := <-ch:
+		return out
+	case <-time.After(5 * time.Second):
+		passHangs[name]++
+		return "HANG"
+	}
+}
+
 func suitePasses(env *Env, res *Result) {
 	res.Rule = "regex-like texts built from printer fragments, flag groups, escapes, quotes, control and non-ASCII bytes (25% printed by Go's regexp/syntax from generated entries, 10% byte mutants) x every string pass of operators/assembler.go and utils.IsEscaped/regex.IsEscaped/findGroupBodyEnd/removeGroup at generated positions; Go function (panic = CRASH) vs. Gallina model; non-trivial = the pass changes the text or crashes"
 	r := NewRng(env.Seed + 11)
 	n := env.N(1200, 30000)
 	var cases []CorrCase
 	add := func(name string, in string, impl string, extra ...string) {
+		if impl == "" {
+			return
+		}
+		if impl == "HANG" {
+			res.addFailure(Failure{Kind: "C19", Shape: "pass_hang", Input: map[string]interface{}{"pass": name, "text": in, "extra": extra}, Detail: name + " did not return within 5 s"})
+		}
 		class := ""
 		if impl != "OK\t"+hx(in) {
 			class = name
@@ -82,14 +108,14 @@ func suitePasses(env *Env, res *Result) {
 		} else {
 			t = genRxText(r)
 		}
-		add("escape_dq", t, callPass(func() string { return operators.VerifEscapeDoublequotes(t) }))
-		add("hex_bs", t, callPass(func() string { return operators.VerifUseHexBackslashes(t) }))
-		add("include_vt", t, callPass(func() string { return operators.VerifIncludeVerticalTabInSpaceClass(t) }))
-		add("hex_escapes", t, callPass(func() string { return operators.VerifUseHexEscapes(t) }))
-		add("dont_use_flags", t, callPass(func() string { return operators.VerifDontUseFlagsForMetaCharacters(t) }))
-		add("remove_outermost", t, callPass(func() string { return operators.VerifRemoveOutermostNonCapturingGroup(t) }))
+		add("escape_dq", t, callPass("escape_dq", func() string { return operators.VerifEscapeDoublequotes(t) }))
+		add("hex_bs", t, callPass("hex_bs", func() string { return operators.VerifUseHexBackslashes(t) }))
+		add("include_vt", t, callPass("include_vt", func() string { return operators.VerifIncludeVerticalTabInSpaceClass(t) }))
+		add("hex_escapes", t, callPass("hex_escapes", func() string { return operators.VerifUseHexEscapes(t) }))
+		add("dont_use_flags", t, callPass("dont_use_flags", func() string { return operators.VerifDontUseFlagsForMetaCharacters(t) }))
+		add("remove_outermost", t, callPass("remove_outermost", func() string { return operators.VerifRemoveOutermostNonCapturingGroup(t) }))
 		// the chain as complete() runs it
-		add("final_passes", t, callPass(func() string {
+		add("final_passes", t, callPass("final_passes", func() string {
 			s := operators.VerifUseHexEscapes(t)
 			s = operators.VerifEscapeDoublequotes(s)
 			s = operators.VerifUseHexBackslashes(s)
@@ -124,7 +150,7 @@ func suitePasses(env *Env, res *Result) {
 			gs := r.Intn(len(t) + 1)
 			bs := gs + r.Intn(len(t)-gs+1)
 			ign := r.Chance(1, 2)
-			add("remove_group", t, callPass(func() string { return operators.VerifRemoveGroup(t, gs, bs, ign) }), strconv.Itoa(gs), strconv.Itoa(bs), strconv.FormatBool(ign))
+			add("remove_group", t, callPass("remove_group", func() string { return operators.VerifRemoveGroup(t, gs, bs, ign) }), strconv.Itoa(gs), strconv.Itoa(bs), strconv.FormatBool(ign))
 		}
 	}
 	compareWithModel(env, res, cases)
